@@ -25,7 +25,7 @@ var c18HTMLTokens = []string{
 	// characters whose lower-case form has a different byte length (U+023A, an invalid UTF-8 byte)
 	"\u023a", "\xe9",
 	// URL-valued legacy attributes outside href/src
-	"<td background=\"",
+	"<table background=\"",
 }
 
 var c18CSSTokens = []string{"color", "position", "w\\69 dth", ":", ";", "red", "url(javascript:x)", "/*", "*/", "\"", "'", "@import", "{", "}", "\\", "!important", " ", "&#59 ", "&#x3a;"}
